@@ -109,6 +109,9 @@ func Load(config, dir string) (*Program, error) {
 	}
 	for _, pk := range pkgs {
 		p.Pkgs[pk.PkgPath] = pk
+		if strings.HasPrefix(pk.PkgPath, ModPath) {
+			RegisterLooseConsts(pk)
+		}
 	}
 	n := 0
 	for short, path := range PkgPaths {
